@@ -52,6 +52,7 @@ TStep ==
   \/ IsEvent("Dump") /\ Dump(A.s) /\ MatchNext(Log[l].after)
   \/ IsEvent("Load") /\ Load(A.d) /\ MatchNext(Log[l].after)
   \/ IsEvent("Destroy") /\ Destroy(A.s) /\ MatchNext(Log[l].after)
+  \/ IsEvent("Adopt") /\ Adopt(A.d, A.s, A.how) /\ MatchNext(Log[l].after)
   \/ IsEvent("MakeView") /\ MakeView(A.view, A.s) /\ MatchNext(Log[l].after)
   \/ IsEvent("DropView") /\ DropView(A.view) /\ MatchNext(Log[l].after)
   \/ IsEvent("WriteView") /\ WriteView(A.view, A.c, A.val) /\ MatchNext(Log[l].after)
